@@ -295,6 +295,33 @@ def sc_reshare_restart_split(rng, k):
     return {"name": "reshare-restart-split-%d" % k, "n": 4, "t": 3, "steps": steps}
 
 
+def sc_reshare_switch_race(rng, k):
+    """TLC counterexample of BeaconReshare.tla (config racelive) as a gated script: threshold raised 2 -> 3 on the
+    same three members, transition at round 4.  The "transition" callback (vault switch) of every node is parked
+    after round 3 was stored; node 1 ticks round 4 and signs it with its OLD share; nodes 0 and 2, not yet switched,
+    accept that partial (one slot per signer index in the round cache, first one wins); then everybody switches and
+    signs round 4 with the new share: node 1's new partial is ignored as a duplicate signer, so no node ever holds
+    three valid new-epoch partials for round 4 (known finding F42)."""
+    steps = [{"op": "startall"}] + _round_steps(0, "random", "r1") + _round_steps(10, "random", "r2")
+    steps.append({"op": "reshare", "nodes": [0, 1, 2], "t": 3, "round": 4})
+    for i in range(3):
+        steps.append({"op": "gate", "point": "transition.cb", "node": i})
+    steps += [{"op": "advance", "node": -1, "to": 20}, {"op": "deliverall", "order": "random"}]
+    for i in range(3):
+        steps.append({"op": "waitgate", "point": "transition.cb", "node": i})
+    steps.append({"op": "quiesce", "label": "r3-callbacks-parked"})
+    steps += [{"op": "advance", "node": 1, "to": 30}, {"op": "deliverall", "order": "fifo"}]
+    for i in range(3):
+        steps.append({"op": "opengate", "point": "transition.cb", "node": i})
+    steps += [{"op": "advance", "node": 0, "to": 30}, {"op": "advance", "node": 2, "to": 30}, {"op": "deliverall", "order": "random"}]
+    steps.append({"op": "quiesce", "label": "live-r4"})
+    for r in range(4, 8):
+        steps += _round_steps(10 * r, "random", "live-r%d" % (r + 1))
+        for c in (2, 4, 6, 8):
+            steps += [{"op": "advance", "node": -1, "to": 10 * r + c}, {"op": "deliverall", "order": "random"}]
+    return {"name": "reshare-switch-race-%d" % k, "n": 3, "t": 2, "steps": steps}
+
+
 def sc_reshare_late(rng, k):
     """the resharing result is registered (TransitionNewGroup) only after the node already stored the last
     pre-transition round, but before the transition time: the vault must still switch on the next stored
@@ -409,6 +436,7 @@ def scenarios_for(ctx, prop):
         out.append(sc_reshare_early(rng, 0))
         out.append(sc_reshare_late(rng, 0))
         out.append(sc_reshare_restart_split(rng, 0))
+        out.append(sc_reshare_switch_race(rng, 0))
     if prop in ("C01", "C03"):
         out.append(sc_reshare_early(rng, 0))
     return out
